@@ -26,6 +26,9 @@ pub enum StressSink {
     /// the documented production setup: client over a QueuingMetricSink over a
     /// buffered (spy) sink; flushes go through the queuing wrapper
     QueuedSpy,
+    /// the same with a small bounded queue: emits are refused while the queue is full;
+    /// every acknowledged metric must still leave whole, once and in program order
+    QueuedSpyBounded,
 }
 
 #[derive(Serialize, Deserialize, Clone, Debug)]
@@ -104,7 +107,7 @@ impl Campaign for StressCampaign {
         let released = Arc::new(std::sync::atomic::AtomicUsize::new(0));
         let mut queue_clones: Vec<cadence::QueuingMetricSink> = Vec::new();
         let client: StatsdClient = match case.sink {
-            StressSink::QueuedSpy => {
+            StressSink::QueuedSpy | StressSink::QueuedSpyBounded => {
                 let (rx, sink) = BufferedSpyMetricSink::with_capacity(None, Some(case.cap));
                 spy_rx = Some(rx);
                 let rec = crate::sockets::Recording {
@@ -113,7 +116,11 @@ impl Campaign for StressCampaign {
                     done: Arc::new(std::sync::atomic::AtomicUsize::new(0)),
                     released: crate::sockets::ReleaseSignal(released.clone()),
                 };
-                let q = crate::queue::build_queuing(rec, case.yields);
+                let q = if case.sink == StressSink::QueuedSpyBounded {
+                    cadence::QueuingMetricSink::with_capacity(rec, 1 + (case.yields % 6) as usize)
+                } else {
+                    crate::queue::build_queuing(rec, case.yields)
+                };
                 // clones of the queuing handle exist elsewhere in a real program (they must not
                 // add consumers: one thread's metrics stay in program order)
                 queue_clones = (0..(case.yields >> 8) % 3).map(|_| q.clone()).collect();
@@ -287,7 +294,7 @@ impl Campaign for StressCampaign {
             Err(_) => panics.push("client still shared after join".into()),
         }
         drop(queue_clones);
-        if case.sink == StressSink::QueuedSpy {
+        if matches!(case.sink, StressSink::QueuedSpy | StressSink::QueuedSpyBounded) {
             // the queue drains in the background; the wrapped buffered sink is dropped (and flushed) last
             let deadline = std::time::Instant::now() + w;
             while released.load(Ordering::SeqCst) == 0 && std::time::Instant::now() < deadline {
@@ -450,6 +457,7 @@ impl Campaign for StressCampaign {
         classes.push(match case.sink {
             StressSink::Spy => "spy channel",
             StressSink::QueuedSpy => "client over queuing sink over buffered spy sink",
+            StressSink::QueuedSpyBounded => "client over a small bounded queuing sink (refusals) over buffered spy sink",
             StressSink::Unix => "unix socket",
             StressSink::Udp => "udp socket (order and loss not judged)",
             StressSink::UnixBlockedReceiver => "unix socket, sender blocked inside the critical section",
